@@ -276,6 +276,38 @@ def bounded(tier, seed):
                                 return 'reduce_dim(%s,%s) variable %s: %s' % (d, r, vk, e)
                     return None
                 run.case('C03:reduce_dim string form:%s' % r, (si, d, r), t)
+    # integer variables, two named dimensions, a reducer whose result is wider than the variable's type (mean, std, var) applied first:
+    # the stored value is the numpy result along both axes, converted to the variable's type ONCE at the end
+    for dt in ('i4', 'i2', 'u1'):
+        fi = P.PseudoNetCDFFile()
+        fi.createDimension('t', 3)
+        fi.createDimension('y', 4)
+        fi.createDimension('x', 5)
+        base = (np.arange(60).reshape(3, 4, 5) * 3 + 1) % (200 if dt == 'u1' else 1000)
+        fi.createVariable('count', dt, ('t', 'y', 'x'), values=base.astype(dt))
+        fi.createVariable('flat', dt, ('t', 'y'), values=(np.arange(12).reshape(3, 4)).astype(dt))
+        for dimfuncs in (dict(t='mean', y='sum'), dict(y='mean', t='sum'), dict(x='mean', t='sum'), dict(t='std', y='sum'), dict(t='mean', y='sum', x='sum')):
+            def t(fi=fi, dimfuncs=dimfuncs, dt=dt):
+                g = fi.applyAlongDimensions(**dimfuncs)
+                for vk, v in fi.variables.items():
+                    named = [d for d in v.dimensions if d in dimfuncs]
+                    if len(named) < 2:
+                        continue
+                    a = np.asarray(v[...]).astype('d')
+                    for ax, d in enumerate(v.dimensions):
+                        if d in dimfuncs:
+                            a = getattr(a, dimfuncs[d])(axis=ax, keepdims=True)
+                    got = np.asarray(g.variables[vk][...])
+                    if got.shape != a.shape:
+                        return 'variable %s shape %r expected %r' % (vk, got.shape, a.shape)
+                    lim = np.iinfo(got.dtype).max if got.dtype.kind in 'iu' else None
+                    ok = np.abs(got.astype('d') - a) < 1.0 + 1e-9
+                    if lim is not None:
+                        ok |= a > lim          # a sum that does not fit the variable's type wraps: not the point here
+                    if not ok.all():
+                        return 'variable %s (%s): %r is not the numpy result %r along both axes' % (vk, dt, got.ravel()[:4].tolist(), np.round(a.ravel()[:4], 3).tolist())
+                return None
+            run.case('C03:applyAlongDimensions:integer variable, widening reducer first', (dt, tuple(dimfuncs.items())), t)
     # convolve_dim (the command-line form of a convolution along a dimension): values = numpy.convolve(weights, column, mode) along the
     # axis -- a CONVOLUTION, so asymmetric kernels tell it from a correlation --, new dimension length, other variables unchanged
     from PseudoNetCDF.core._functions import convolve_dim
